@@ -28,6 +28,8 @@ const initRev = 100
 var keyPool = []string{"/registry/pods/a", "/registry/pods/b", "/registry/leases/l", "/registry/skip/x",
 	"/registry/skip/sub/y", "/registryfoo/z", "/other/k", "/registry/pods/c"}
 
+var tab = lib.CsNewIntern(keyPool)
+
 type config struct {
 	name    string
 	skipped []string
@@ -119,9 +121,9 @@ type readSpec struct {
 
 func (r readSpec) coq() string {
 	if r.get {
-		return lib.App("RdGet", lib.Bytes(r.key), lib.N(r.rev))
+		return lib.App("RdGet", tab.B(r.key), lib.N(r.rev))
 	}
-	return lib.App("RdList", lib.Bytes(r.lo), lib.Bytes(r.hi), lib.N(r.rev), lib.N(uint64(r.limit)))
+	return lib.App("RdList", tab.B(r.lo), tab.B(r.hi), lib.N(r.rev), lib.N(uint64(r.limit)))
 }
 
 func doReads(be *lib.CsBackend, reads []readSpec) []string {
@@ -142,7 +144,7 @@ func doReads(be *lib.CsBackend, reads []readSpec) []string {
 			if isErr {
 				out[i] = "RFailed"
 			} else {
-				out[i] = lib.App("RListed", lib.CsKvrCoq(kvs), lib.Bool(more))
+				out[i] = lib.App("RListed", lib.CsKvrCoqI(kvs, tab), lib.Bool(more))
 			}
 		}
 	}
@@ -181,40 +183,22 @@ func sortedDump(kv storage.KvStorage) ([]lib.KV, error) {
 	return d, nil
 }
 
-// diff renders `now` relative to `base` (both sorted by key): removed positions of base, added records.
-func diff(base, now []lib.KV) (string, []int, []lib.KV) {
-	in := map[string]bool{}
-	for _, e := range now {
-		in[string(e.K)+"\x00"+string(e.V)] = true
+func decodedDump(kv storage.KvStorage) ([]lib.CsRec, error) {
+	d, err := sortedDump(kv)
+	if err != nil {
+		return nil, err
 	}
-	was := map[string]bool{}
-	var rm []string
-	var rmi []int
-	for i, e := range base {
-		k := string(e.K) + "\x00" + string(e.V)
-		was[k] = true
-		if !in[k] {
-			rm = append(rm, lib.N(uint64(i)))
-			rmi = append(rmi, i)
-		}
-	}
-	var added []lib.KV
-	for _, e := range now {
-		if !was[string(e.K)+"\x00"+string(e.V)] {
-			added = append(added, e)
-		}
-	}
-	return lib.Pair(lib.List(rm), lib.CoqDump(added)), rmi, added
+	return lib.CsDecodeDump(d)
 }
 
 func wopCoq(w lib.CsWrite) string {
 	switch w.Op {
 	case "create":
-		return lib.App("WCreate", lib.Bytes(w.Key), lib.Bytes(w.Val))
+		return lib.App("WCreate", tab.B(w.Key), lib.Bytes(w.Val))
 	case "update":
-		return lib.App("WUpdate", lib.Bytes(w.Key), lib.Bytes(w.Val), lib.N(w.Rev))
+		return lib.App("WUpdate", tab.B(w.Key), lib.Bytes(w.Val), lib.N(w.Rev))
 	}
-	return lib.App("WDelete", lib.Bytes(w.Key), lib.N(w.Rev))
+	return lib.App("WDelete", tab.B(w.Key), lib.N(w.Rev))
 }
 
 func addsCoq(w lib.CsWrite, class string, hdr uint64) string {
@@ -222,11 +206,11 @@ func addsCoq(w lib.CsWrite, class string, hdr uint64) string {
 		return "[]"
 	}
 	if w.Op == "delete" {
-		return lib.List([]string{lib.App("RIdx", lib.Bytes(w.Key), lib.N(hdr), "true"),
-			lib.App("RVer", lib.Bytes(w.Key), lib.N(hdr), "tombstone")})
+		return lib.List([]string{lib.App("RIdx", tab.B(w.Key), lib.N(hdr), "true"),
+			lib.App("RVer", tab.B(w.Key), lib.N(hdr), "tombstone")})
 	}
-	return lib.List([]string{lib.App("RIdx", lib.Bytes(w.Key), lib.N(hdr), "false"),
-		lib.App("RVer", lib.Bytes(w.Key), lib.N(hdr), lib.Bytes(w.Val))})
+	return lib.List([]string{lib.App("RIdx", tab.B(w.Key), lib.N(hdr), "false"),
+		lib.App("RVer", tab.B(w.Key), lib.N(hdr), lib.Bytes(w.Val))})
 }
 
 var errInjected = errors.New("verif: injected delete failure")
@@ -270,7 +254,7 @@ func resolveWrite(be *lib.CsBackend, w lib.CsWrite, mode int, hist uint64) lib.C
 	return w
 }
 
-func (w *worker) runVariant(cfg config, pre []lib.KV, hist uint64, reads []readSpec, caseBefore []string, rs runSpec) (vo variantOut) {
+func (w *worker) runVariant(cfg config, pre []lib.KV, preDec []lib.CsRec, hist uint64, reads []readSpec, caseBefore []string, rs runSpec) (vo variantOut) {
 	be, sw, err := w.backendFor(cfg)
 	if err != nil {
 		vo.fail = err.Error()
@@ -388,7 +372,7 @@ func (w *worker) runVariant(cfg config, pre []lib.KV, hist uint64, reads []readS
 	_ = cerr
 	hdr := resp.GetHeader().GetRevision()
 	cur2 := be.B.GetCurrentRevision()
-	post, err := sortedDump(inner)
+	post, err := decodedDump(inner)
 	if err != nil {
 		vo.fail = err.Error()
 		return
@@ -450,13 +434,13 @@ func (w *worker) runVariant(cfg config, pre []lib.KV, hist uint64, reads []readS
 		roundJ = append(roundJ, map[string]interface{}{"op": wr.Op, "key": string(wr.Key), "rev": wr.Rev, "res": class})
 		vo.outcomes = append(vo.outcomes, "round-"+wr.Op+"-"+class)
 	}
-	final, err := sortedDump(inner)
+	final, err := decodedDump(inner)
 	if err != nil {
 		vo.fail = err.Error()
 		return
 	}
-	postDiff, rmi, _ := diff(pre, post)
-	finalDiff, _, _ := diff(post, final)
+	postDiff, rmi := lib.CsDiff(preDec, post, tab)
+	finalDiff, _ := lib.CsDiff(post, final, tab)
 	vo.ndel = len(kinds)
 	vo.kinds = kinds
 	vo.coq = lib.App("mkV7", lib.N(D), lib.N(req), lib.List(ocs), lib.N(hdr), lib.N(cur2), lib.List(kinds),
@@ -480,6 +464,7 @@ func (w *worker) runVariant(cfg config, pre []lib.KV, hist uint64, reads []readS
 
 type history struct {
 	cfg   config
+	dec   []lib.CsRec
 	pre   []lib.KV
 	hist  uint64
 	json  []interface{}
@@ -579,6 +564,10 @@ func buildHistory(r *lib.Rand, cfg config, scratch string, corpus int) (*history
 	}
 	h.hist = be.B.GetCurrentRevision()
 	h.pre, err = sortedDump(inner)
+	if err != nil {
+		return nil, err
+	}
+	h.dec, err = lib.CsDecodeDump(h.pre)
 	return h, err
 }
 
@@ -594,7 +583,7 @@ func main() {
 	case "search":
 		nHist, faultRs, dieEvery, envPer, par = 120, 3, 2, 3, 64
 	}
-	w := lib.NewWriter(args, "C07", "c07", "From KB Require Import Model.C07Cases.", "c07_case", "c07_check", "c07_oracle", 60)
+	w := lib.NewWriter(args, "C07", "c07", "From KB Require Import Model.C07Cases.\n"+tab.Header(), "c07_case", "c07_check", "c07_oracle", 60)
 
 	type caseJob struct {
 		h       *history
@@ -664,7 +653,7 @@ func main() {
 			top := h.hist + 1
 			from := R
 			if reqMode != "R" {
-				from = h.hist
+				from = top + 1 // compaction at the committed revision: only reads at the latest revision are protected
 			}
 			for rev := from; rev <= top; rev++ {
 				cj.reads = append(cj.reads, readSpec{lo: lo, hi: hi2, rev: rev})
@@ -742,7 +731,7 @@ func main() {
 			outs[ci].before = doReads(be, cj.reads)
 			closer()
 		}
-		vo := wk.runVariant(cj.h.cfg, cj.h.pre, cj.h.hist, cj.reads, outs[ci].before, rs)
+		vo := wk.runVariant(cj.h.cfg, cj.h.pre, cj.h.dec, cj.h.hist, cj.reads, outs[ci].before, rs)
 		mu.Lock()
 		outs[ci].variants = append(outs[ci].variants, vo)
 		mu.Unlock()
@@ -847,7 +836,7 @@ func main() {
 		for _, s := range cj.h.cfg.skipped {
 			sk = append(sk, lib.Str(s))
 		}
-		coq := lib.App("mkC7", lib.Str(prefix), lib.List(sk), borders[cj.h.cfg.name], lib.CoqDump(cj.h.pre),
+		coq := lib.App("mkC7", lib.Str(prefix), lib.List(sk), borders[cj.h.cfg.name], lib.CsRecsCoq(cj.h.dec, tab),
 			lib.List(rcoq), lib.List(o.before), lib.List(vs))
 		if ndel > 0 {
 			oc = append(oc, "deletes")
